@@ -46,3 +46,56 @@ package utils
 //@ loop 0 invariant err == io.EOF ==> (rd.spos == rd.sn && rd.sfault == nil && old(rd.sfault) == nil)
 //@ loop 0 invariant err != nil && err != io.EOF ==> (rd.sfault == err && (old(rd.sfault) != nil ==> err == old(rd.sfault) && num == 0))
 //@ loop 0 invariant rd.sfault == nil ==> old(rd.sfault) == nil
+
+//@ func ReadByte
+//@ requires rd != nil && 0 <= rd.spos && rd.spos <= rd.sn
+//@ modifies rd.spos, rd.sfault
+//@ ensures [P:C09] rd.sfault == nil ==> (result1 == nil <==> old(rd.sn) - old(rd.spos) >= 1)
+//@ ensures [P:C09] result1 == nil ==> (rd.spos == old(rd.spos) + 1 && result0 == rd.sdata[old(rd.spos)])
+//@ ensures [P:C10] result1 == io.EOF ==> rd.sfault == nil
+//@ ensures [P:C10] old(rd.sfault) != nil ==> result1 == old(rd.sfault)
+//@ ensures [H] old(rd.spos) <= rd.spos && rd.spos <= rd.sn && rd.spos <= old(rd.spos) + 1
+//@ ensures [H] rd.sfault == nil ==> old(rd.sfault) == nil
+//@ ensures [H] result1 != nil && rd.sfault == nil ==> (result1 == io.EOF && rd.spos == rd.sn)
+
+//@ func ReadUint16
+//@ requires rd != nil && 0 <= rd.spos && rd.spos <= rd.sn
+//@ modifies rd.spos, rd.sfault
+//@ ensures [P:C09] rd.sfault == nil ==> (result1 == nil <==> old(rd.sn) - old(rd.spos) >= 2)
+//@ ensures [P:C02] result1 == nil ==> (rd.spos == old(rd.spos) + 2 && result0 == ((uint16(rd.sdata[old(rd.spos)]) << 8) | uint16(rd.sdata[old(rd.spos) + 1])))
+//@ ensures [P:C10] result1 == io.EOF ==> rd.sfault == nil
+//@ ensures [P:C10] old(rd.sfault) != nil ==> result1 == old(rd.sfault)
+//@ ensures [H] old(rd.spos) <= rd.spos && rd.spos <= rd.sn && rd.spos <= old(rd.spos) + 2
+//@ ensures [H] rd.sfault == nil ==> old(rd.sfault) == nil
+//@ ensures [H] result1 != nil && rd.sfault == nil ==> (result1 == io.EOF && rd.spos == rd.sn)
+
+//@ func ReadUint32
+//@ requires rd != nil && 0 <= rd.spos && rd.spos <= rd.sn
+//@ modifies rd.spos, rd.sfault
+//@ ensures [P:C09] rd.sfault == nil ==> (result1 == nil <==> old(rd.sn) - old(rd.spos) >= 4)
+//@ ensures [P:C02] result1 == nil ==> (rd.spos == old(rd.spos) + 4 && result0 == ((uint32(rd.sdata[old(rd.spos)]) << 24) | (uint32(rd.sdata[old(rd.spos) + 1]) << 16) | (uint32(rd.sdata[old(rd.spos) + 2]) << 8) | uint32(rd.sdata[old(rd.spos) + 3])))
+//@ ensures [P:C10] result1 == io.EOF ==> rd.sfault == nil
+//@ ensures [P:C10] old(rd.sfault) != nil ==> result1 == old(rd.sfault)
+//@ ensures [H] old(rd.spos) <= rd.spos && rd.spos <= rd.sn && rd.spos <= old(rd.spos) + 4
+//@ ensures [H] rd.sfault == nil ==> old(rd.sfault) == nil
+//@ ensures [H] result1 != nil && rd.sfault == nil ==> (result1 == io.EOF && rd.spos == rd.sn)
+
+//@ func ReadVarLength
+//@ requires reader != nil && 0 <= reader.spos && reader.spos <= reader.sn
+//@ modifies reader.spos, reader.sfault
+//@ ensures [P:C02] result1 == nil ==> (result0 == vlqAcc(reader.sdata, old(reader.spos), reader.spos - old(reader.spos)) && vlqEndsAt(reader.sdata, old(reader.spos), reader.spos - old(reader.spos)))
+//@ ensures [P:C09] result1 != nil && reader.sfault == nil ==> (reader.spos == reader.sn && forall i int :: old(reader.spos) <= i && i < reader.sn ==> (reader.sdata[i] & 0x80) != 0)
+//@ ensures [P:C10] result1 != nil ==> (result1 == ErrUnexpectedEOF)
+//@ ensures [P:C10] old(reader.sfault) != nil ==> result1 != nil
+//@ ensures [H] old(reader.spos) <= reader.spos && reader.spos <= reader.sn
+//@ ensures [H] reader.sfault == nil ==> old(reader.sfault) == nil
+//@ loop 0 invariant fresh(buffer) && len(buffer) == 1 && 0 <= num && num <= 1
+//@ loop 0 invariant old(reader.spos) <= reader.spos && reader.spos <= reader.sn
+//@ loop 0 invariant first ==> (reader.spos == old(reader.spos) && result == 0 && num == 1)
+//@ loop 0 invariant !first && num > 0 ==> (reader.spos > old(reader.spos) && buffer[0] == reader.sdata[reader.spos - 1])
+//@ loop 0 invariant !first && num > 0 ==> result == vlqAcc(reader.sdata, old(reader.spos), reader.spos - old(reader.spos))
+//@ loop 0 invariant forall i int :: old(reader.spos) <= i && i < reader.spos - 1 ==> (reader.sdata[i] & 0x80) != 0
+//@ loop 0 invariant !first && num == 0 ==> (reader.sfault != nil || (reader.spos == reader.sn && forall i int :: old(reader.spos) <= i && i < reader.sn ==> (reader.sdata[i] & 0x80) != 0))
+//@ loop 0 invariant reader.sfault == nil ==> old(reader.sfault) == nil
+//@ loop 0 invariant old(reader.sfault) != nil ==> (first || num == 0)
+//@ loop 0 decreases 2 * (reader.sn - reader.spos) + num
